@@ -228,6 +228,103 @@ func randomHistory(rng *rand.Rand, nBlocks, maxAdds int) racHistory {
 	return h
 }
 
+// emptyRootHistory: n leaves, then a block that empties whole trees (a random non-empty subset of the
+// trees, sometimes a few more leaves), then one or two small blocks: empty roots survive, are merged over,
+// and sit next to live roots.
+func emptyRootHistory(rng *rand.Rand) racHistory {
+	n := 2 + rng.Intn(39)
+	h := racHistory{{Adds: n}}
+	var dels []uint64
+	base := 0
+	first := true
+	for row := 6; row >= 0; row-- {
+		if n&(1<<uint(row)) == 0 {
+			continue
+		}
+		kill := rng.Intn(2) == 0
+		if first && rng.Intn(3) != 0 {
+			kill = true
+		}
+		first = false
+		for i := 0; i < 1<<uint(row); i++ {
+			if kill || rng.Intn(12) == 0 {
+				dels = append(dels, uint64(base+i))
+			}
+		}
+		base += 1 << uint(row)
+	}
+	h = append(h, racBlock{Dels: dels, Adds: rng.Intn(2)})
+	total := n + h[1].Adds
+	live := map[uint64]bool{}
+	for i := 0; i < total; i++ {
+		live[uint64(i)] = true
+	}
+	for _, d := range dels {
+		delete(live, d)
+	}
+	for b := 0; b < 1+rng.Intn(2); b++ {
+		var blk racBlock
+		for s := uint64(0); s < uint64(total); s++ {
+			if live[s] && rng.Intn(8) == 0 {
+				blk.Dels = append(blk.Dels, s)
+				delete(live, s)
+			}
+		}
+		blk.Adds = 1 + rng.Intn(4)
+		for k := 0; k < blk.Adds; k++ {
+			live[uint64(total+k)] = true
+		}
+		total += blk.Adds
+		h = append(h, blk)
+	}
+	return h
+}
+
+// racLeaf gives the value of the leaf added at an insertion slot; TestRAC_ADV replaces it by adversarial
+// assignments (values that share 12-byte prefixes, values equal to hashes of internal nodes).
+var racLeaf = specLeaf
+
+// tagged runs f on a scratch result and merges it into r with tag appended to every clause name.
+func (r *racResult) tagged(tag string, f func(tmp *racResult)) {
+	if tag == "" {
+		f(r)
+		return
+	}
+	tmp := &racResult{Property: r.Property, Tier: r.Tier, Seed: r.Seed, PerClause: map[string]int{}, distinct: map[string]bool{}, violCount: map[string]int{}}
+	f(tmp)
+	r.Evaluations += tmp.Evaluations
+	name := func(c string) string {
+		if strings.Contains(c, "/") {
+			return c // the clause already names its own input class
+		}
+		return c + tag
+	}
+	for k, v := range tmp.PerClause {
+		r.PerClause[name(k)] += v
+	}
+	for _, v := range tmp.Violations {
+		r.fail(name(v.Clause), v.Input, v.Observed, v.Expected)
+	}
+}
+
+// onlyClauses runs f on a scratch result and keeps the evaluations and violations of the clauses with the
+// given prefix.
+func (r *racResult) onlyClauses(prefix string, f func(tmp *racResult)) {
+	tmp := &racResult{Property: r.Property, Tier: r.Tier, Seed: r.Seed, PerClause: map[string]int{}, distinct: map[string]bool{}, violCount: map[string]int{}}
+	f(tmp)
+	for k, v := range tmp.PerClause {
+		if strings.HasPrefix(k, prefix) {
+			r.PerClause[k] += v
+			r.Evaluations += v
+		}
+	}
+	for _, v := range tmp.Violations {
+		if strings.HasPrefix(v.Clause, prefix) {
+			r.fail(v.Clause, v.Input, v.Observed, v.Expected)
+		}
+	}
+}
+
 // ---- the world: spec forest + the implementations ------------------------------------------------
 
 type mapCfg struct {
@@ -296,7 +393,7 @@ func (w *racWorld) prepare(b racBlock) (blockData, error) {
 	}
 	bd.proof = pr
 	for k := 0; k < b.Adds; k++ {
-		h := specLeaf(int(w.spec.n) + k)
+		h := racLeaf(int(w.spec.n) + k)
 		bd.adds = append(bd.adds, h)
 		bd.leaves = append(bd.leaves, Leaf{Hash: h, Remember: true})
 	}
